@@ -2,6 +2,7 @@
 From Coq Require Import List Arith NArith Bool.
 From AV Require Import Base.ITree Model.D00 Model.D01.
 From AV Require Import Model.D03.
+From AV Require Import Model.D17.
 Import ListNotations.
 
 Definition dispatch (prop op : nat) (t : itree) : itree :=
@@ -9,5 +10,6 @@ Definition dispatch (prop op : nat) (t : itree) : itree :=
   | 0 => d00 op t               (* op 0 = echo / self-test; shared comparators *)
   | 1 => d01 op t
   | 3 => d03 op t
+  | 17 => d17 op t
   | _ => bad_input
   end.
